@@ -3,5 +3,5 @@ package main
 import "fmt"
 
 func extractMain(args []string) {
-	fmt.Println("extract: not yet implemented")
+	_ = fmt.Sprint()
 }
